@@ -39,3 +39,197 @@ def oracle_sccs(nodes, edges):
     for v in nodes:
         comps.add(frozenset(w for w in nodes if w in r[v] and v in r[w]))
     return comps
+
+
+# ----------------------------------------------------------------------------------------
+# node objects that are not 0..n-1 (shared by C12 and C13).  A graph over indices 0..n-1 is RENAMED through a bijection
+# index -> object; the library runs on the renamed graph, results are mapped back through the bijection and compared with
+# the model run on the index graph.  Nodes only have to be hashable: None, falsy values, mutually unorderable values,
+# distinct nodes with equal str() / repr() / hash() are all legal.
+# ----------------------------------------------------------------------------------------
+class Station(object):
+    """an ordinary object: equality and hash by identity; every instance of one name prints the same"""
+    def __init__(self, name):
+        self.name = name
+
+    def __repr__(self):
+        return 'Station(%s)' % (self.name,)
+
+
+class Named(object):
+    """identity-hashed object whose str() and repr() are those of an int"""
+    def __init__(self, k):
+        self.k = k
+
+    def __repr__(self):
+        return str(self.k)
+
+
+class Collide(object):
+    """identity equality, but only two hash values: distinct nodes share hash buckets"""
+    def __init__(self, k):
+        self.k = k
+
+    def __hash__(self):
+        return self.k % 2
+
+    def __repr__(self):
+        return 'Collide(%s)' % (self.k,)
+
+
+# family -> list of kinds; a kind maps a small label to a node object.  Two picks of one family may give EQUAL objects
+# (None, 0, '' ... exist once): node_objects() replaces the later one by a fresh tuple.
+NODE_FAMILIES = {
+    'none_and_falsy': [lambda l: None, lambda l: 0, lambda l: '', lambda l: (), lambda l: frozenset(), lambda l: -1 - l,
+                       lambda l: 'None', lambda l: l + 1],
+    'unorderable': [lambda l: l, lambda l: 's%d' % l, lambda l: (l, 'p'), lambda l: None, lambda l: frozenset([l]),
+                    lambda l: Station(l), lambda l: l + 0.5, lambda l: b'b%d' % l],
+    'equal_str': [lambda l: l, lambda l: str(l), lambda l: (l,), lambda l: str((l,)), lambda l: Named(l), lambda l: repr(str(l))],
+    'equal_repr_or_hash': [lambda l: Station(l % 2), lambda l: Collide(l), lambda l: Named(l % 2), lambda l: (l % 2, Station(0))],
+}
+
+
+def rand_picks(rng, family, n):
+    """n (kind, label) picks; labels from a small range so that equal str() / repr() really collide"""
+    k = len(NODE_FAMILIES[family])
+    return [[rng.randrange(k), rng.randrange(3)] for _ in range(n)]
+
+
+def rotated_picks(family, n, shift):
+    k = len(NODE_FAMILIES[family])
+    return [[(i + shift) % k, (i + shift // k) % 2] for i in range(n)]
+
+
+def node_objects(family, picks):
+    """the bijection index -> node object of one renamed graph (deterministic in (family, picks): replayable)"""
+    kinds = NODE_FAMILIES[family]
+    objs = []
+    for i, (kind, label) in enumerate(picks):
+        o = kinds[kind % len(kinds)](label)
+        if any(o is p or o == p for p in objs):
+            o = ('again', i)
+        objs.append(o)
+    return objs
+
+
+def index_of(objs):
+    """object -> index ('foreign:<type>' for anything that is not one of the node OBJECTS)"""
+    idx = {}
+    for i, o in enumerate(objs):
+        idx[o] = i
+
+    def num(o):
+        try:
+            return idx.get(o, 'foreign:%s' % type(o).__name__)
+        except TypeError:
+            return 'foreign:unhashable'
+    return num
+
+
+# ----------------------------------------------------------------------------------------
+# histories over SEVERAL graph objects (shared by C12 and C13): a graph is built, then edited in place (add_edge between
+# existing nodes, to / from new nodes, add_node) and derived from (clone, reversed, subgraph); work goes on either on the
+# derived object or on the original; after every step EVERY object of the history is observed again (so: an operation run
+# ON a clone / a reversed graph / a subgraph, and G asked again after an edited derived graph was asked).
+# ----------------------------------------------------------------------------------------
+def rand_chain(rng, nmax=5, kmax=5):
+    n = rng.randint(1, nmax)
+    V = list(range(n))
+    rng.shuffle(V)
+    E = rand_digraph(rng, n)
+    rng.shuffle(E)
+    m = n
+    ops = []
+    for _ in range(rng.randint(1, kmax)):
+        t = rng.random()
+        if t < 0.38:
+            a, b = rng.randrange(m + 1), rng.randrange(m + 1)
+            if rng.random() < 0.75:
+                a, b = rng.randrange(m), rng.randrange(m)          # between nodes that (probably) exist already
+            ops.append(['edge', a, b])
+            m = max(m, a + 1, b + 1)
+        elif t < 0.46:
+            v = rng.randrange(m + 1)
+            ops.append(['node', v])
+            m = max(m, v + 1)
+        elif t < 0.66:
+            ops.append(['clone', int(rng.random() < 0.6)])
+        elif t < 0.80:
+            ops.append(['rev', int(rng.random() < 0.6)])
+        elif t < 0.92:
+            X = [v for v in range(m + 1) if rng.random() < 0.6]
+            if X and rng.random() < 0.3:
+                X = X + X[:2]
+            rng.shuffle(X)
+            ops.append(['sub', X, int(rng.random() < 0.6)])
+        else:
+            ops.append(['goto', rng.randrange(6)])
+    Q = [[rng.randrange(m)], [v for v in range(m) if rng.random() < 0.4]]
+    if rng.random() < 0.3:
+        Q.append(Q[1] + Q[0] + Q[1][:1])                                 # a node collection that names a node twice
+    return {'V': V, 'E': [list(e) for e in E], 'ops': ops, 'Q': Q}
+
+
+def live_sx(G):
+    """presentation of a live DiGraph (dict order and set iteration order read back)"""
+    return [[k, list(ds)] for k, ds in G._next.items()]
+
+
+def ints_only(p):
+    return all(type(k) is int and all(type(d) is int for d in ds) for k, ds in p)
+
+
+def exec_chain(chain, observe, call):
+    """run one history on live objects.  Returns (steps, shared cells, the objects); a step is a dict: op, target (index of the object the
+    op was applied to), before (presentation of the target before the op), outcome ('ok' / exception enum), new (index of the
+    object the op returned, or None), obs: [(index, presentation, observe(object, index))] for every object of the history"""
+    from pyModelChecking.graph import DiGraph
+    G = DiGraph(V=list(chain['V']), E=[tuple(e) for e in chain['E']])
+    objs = [G]
+    cur = 0
+    steps = [{'op': ['init'], 'target': 0, 'before': None, 'outcome': 'ok', 'new': 0,
+              'obs': [(0, live_sx(G), observe(G, 0))]}]
+    for op in chain['ops']:
+        H = objs[cur]
+        st = {'op': op, 'target': cur, 'before': live_sx(H), 'new': None}
+        if op[0] == 'goto':
+            cur = op[1] % len(objs)
+            st['outcome'] = 'ok'
+        else:
+            if op[0] == 'edge':
+                r = call(lambda: H.add_edge(op[1], op[2]))
+            elif op[0] == 'node':
+                r = call(lambda: H.add_node(op[1]))
+            elif op[0] == 'clone':
+                r = call(lambda: H.clone())
+            elif op[0] == 'rev':
+                r = call(lambda: H.get_reversed_graph())
+            else:
+                X = list(op[1])
+                r = call(lambda: H.get_subgraph(X))
+                if X != list(op[1]):
+                    r = ('err', 'other:the list given to get_subgraph was modified')
+            st['outcome'] = 'ok' if r[0] == 'ok' else r[1]
+            if r[0] == 'ok' and op[0] in ('clone', 'rev', 'sub'):
+                if not isinstance(r[1], DiGraph):
+                    st['outcome'] = 'other:the result is not a DiGraph'
+                else:
+                    known = [i for i, o in enumerate(objs) if o is r[1]]
+                    if known:
+                        st['outcome'] = 'other:the result IS an object of the history (object %d)' % known[0]
+                    else:
+                        objs.append(r[1])
+                        st['new'] = len(objs) - 1
+                        if op[-1]:
+                            cur = st['new']
+        st['obs'] = [(i, live_sx(o), observe(o, i)) for i, o in enumerate(objs)]
+        steps.append(st)
+    # no two objects of a history may share a successor set (or the whole map)
+    seen = {}
+    shared = []
+    for i, o in enumerate(objs):
+        for key, cell in [('the node map', o._next)] + [('the successor set of %r' % (k,), c) for k, c in o._next.items()]:
+            if id(cell) in seen:
+                shared.append('object %d (%s) and object %d share %s' % (seen[id(cell)][0], seen[id(cell)][1], i, key))
+            seen.setdefault(id(cell), (i, key))
+    return steps, shared, objs
